@@ -648,7 +648,7 @@ func (x *Xlat) builtin(st *State, fr *Frame, out *Outcomes, ce *ast.CallExpr, na
 		m := x.eval(st, fr, out, ce.Args[0])
 		k := x.coerce(x.eval(st, fr, out, ce.Args[1]), mt.Key())
 		ks := x.tm.SortOf(mt.Key())
-		dk := mapDomKey(ks)
+		dk := mapDomKey(ks, x.tm.SortOf(mt.Elem()))
 		hd := x.get(st, dk, ArrSort(SRef, ArrSort(ks, SBool)))
 		was := Sel(Sel(hd, m), k)
 		hl := x.get(st, mapLenKey, ArrSort(SRef, SInt))
